@@ -192,3 +192,47 @@ Proof.
   - repeat constructor.
   - vm_compute. eexists; reflexivity.
 Qed.
+
+(** Instance isolation: several Encoders at work at the same time, their Write calls interleaved in ANY order
+    ([sched]) and their encodings cut into Write calls in ANY way ([j_writes]; Pickle/Isolation.v).  An instance's
+    step moves its next chunk to its own Writer and touches nothing else -- the Encoder of encode.go keeps all its
+    state (Writer, memo, id counter) in the struct.  Then, when all writes are made, every Writer has received
+    exactly the encoding its instance produces alone, and it decodes to a graph isomorphic to that instance's
+    value: the round trip holds for each instance whatever the others do.  The isolation harness
+    (harness/overlay/pickle/zz_verif_c07_conc_test.go) checks the modelling assumption on the code: real Encoders
+    and Decoders run under such schedules (hand-over at every Write, Read, Pickle and Unpickle call) and on free
+    goroutines must write / decode exactly what they write / decode alone. *)
+From Dawn Require Import Pickle.Isolation Pickle.Proofs_Isolation.
+Theorem interleaved_codecs_isolated : forall pk unp (jobs : list job) (sched : list nat),
+    Forall (fun j => wf_heap (j_heap j) /\ host_pair pk unp (j_heap j) /\ host_acyclic pk (j_heap j) /\ wf_val (j_val j) /\
+                     encode_top pk (j_fuel j) (j_heap j) (j_val j) = Ok (concat (j_writes j))) jobs ->
+    finished (run sched (start (map j_writes jobs))) ->
+    Forall2 (fun j x => encode_top pk (j_fuel j) (j_heap j) (j_val j) = Ok (sink x) /\
+                        exists v' h', decode unp (sink x) = Ok (v', h') /\ iso (j_heap j) (j_val j) h' v')
+            jobs (run sched (start (map j_writes jobs))).
+Proof. exact interleaved_codecs_isolated_proof. Qed.
+Print Assumptions interleaved_codecs_isolated.
+
+(** The hypotheses are satisfiable: None, a list containing itself and a tuple, written opcode by opcode, under a
+    schedule that interleaves the three instances. *)
+Definition ex_jobs : list job :=
+  [ {| j_fuel := 5; j_heap := []; j_val := VNone; j_writes := [[opNONE]; [opSTOP]] |};
+    {| j_fuel := 5; j_heap := [NList [VRef 0%nat; VBool true]]; j_val := VRef 0%nat;
+       j_writes := [[opEMPTY_LIST]; [opMEMOIZE]; [opMARK]; [opBINGET; 0]; [opNEWTRUE]; [opAPPENDS]; [opSTOP]] |};
+    {| j_fuel := 5; j_heap := []; j_val := VTuple [VBool true; VInt 256]; j_writes := [[opNEWTRUE]; [opBININT2; 0; 1]; [opTUPLE2]; [opSTOP]] |} ].
+Definition ex_sched : list nat := [0; 1; 2; 1; 0; 2; 2; 1; 1; 2; 1; 1; 1]%nat.
+
+Example ex_interleaving :
+    Forall (fun j => wf_heap (j_heap j) /\ host_pair (Some obj_pickler) (Some obj_unpickler) (j_heap j) /\
+                     host_acyclic (Some obj_pickler) (j_heap j) /\ wf_val (j_val j) /\
+                     encode_top (Some obj_pickler) (j_fuel j) (j_heap j) (j_val j) = Ok (concat (j_writes j))) ex_jobs /\
+    finished (run ex_sched (start (map j_writes ex_jobs))).
+Proof.
+  assert (NH : forall h, Forall (fun nd => match nd with NObj _ _ _ => False | _ => True end) h -> no_host (Some obj_pickler) h).
+  { intros h FA p nd E HI. inversion E; subst. rewrite Forall_forall in FA. specialize (FA _ HI). destruct nd; try reflexivity; contradiction. }
+  split.
+  - repeat constructor; cbn [j_heap j_val j_fuel j_writes];
+      try (apply no_host_pair; apply NH; repeat constructor); try (apply no_host_acyclic; apply NH; repeat constructor);
+      try (vm_compute; discriminate); try (vm_compute; reflexivity).
+  - vm_compute. repeat constructor.
+Qed.
